@@ -426,11 +426,14 @@ def main(prop_id, tier, seed, runs=None, jobs=None, wall=None):
                 print("VIOLATION property=%s replay=%s" % (prop_id, path))
     # (c') rate guard: an open finding is a *measured* tail of the unchanged tree.  If far more runs fail than the
     #      recorded rates explain, some other defect is hiding behind a finding's pattern: reported as a violation
-    #      (replay = the smallest matched case).  Threshold = max(3x, +10 sigma + 10) of the expected count.
+    #      (replay = the smallest matched case).  Threshold = 1.25 x expected + 6 sigma + 6.
     raw_viol = len(agg.violations) + agg.extra.get("violations_not_kept", 0)
     n_cases = sum(agg.families.values())        # generate() calls (a C07 case = one base run with all its crash runs)
     exp = sum(f.get("expected_rate", {}).get(prop_id, 0.0) for f in open_findings) * n_cases
-    limit = max(3 * exp, exp + 10 * (exp ** 0.5) + 10)
+    # (hour 12: was max(3x, +10 sigma + 10), which let a 2.7-fold excess of several hundred cases pass.  Failing runs are independent
+    #  draws, so their count is Poisson around the measured rate; 25 % covers the error of the rate estimate itself (>= 30 000
+    #  surveyed runs per property), 6 sigma and +6 the sampling noise: the chance of a false alarm is below 1e-6 per run.)
+    limit = 1.25 * exp + 6 * ((1.25 * exp) ** 0.5) + 6
     rate_info = {"cases": n_cases, "raw_violations": raw_viol, "expected_known": round(exp, 2), "limit": round(limit, 1)}
     if open_findings and raw_viol > limit and not reported:
         matched = [(len(m.get("plan", [])), i, m, mv) for i, c, v, m, mv in viols if mv is not None and findings.match(prop_id, m, mv)]
